@@ -96,14 +96,26 @@ def mechanism(draw, closed_loops=True, point_masses=True, conservative=False, ma
         joints[1]["r_OJ0"][1] = 0.4 + draw(gen.f(0.0, 0.3))
         spec["closing"] = {"type": "Spherical", "r_OJ0": [last["r"][0] + 0.6, -0.5 - draw(gen.f(0.0, 0.3)), 0.3 + draw(gen.f(0.0, 0.3))]}
         spec["rate"] = 0.0
-    if kind == "chain" and not conservative and draw(st.integers(0, 3)) == 0:
-        # rheonomic constraint: the chain hangs from a translating frame
-        m = draw(build.motion(moving=True, rotating=False))
+    if kind == "chain" and not conservative and draw(st.booleans()):
+        # rheonomic constraint: the chain hangs from a translating (and possibly rotating) frame with non-constant
+        # velocity; the frame sits at the identity orientation at t = 0
+        m = draw(build.motion(moving=True, rotating=draw(st.booleans())))
         m["c0"] = [0.0, 0.0, 0.0]
         m["psi0"] = [0.0, 0.0, 0.0]
         for k in ("c1", "c2", "a"):
             m[k] = (0.5 * np.array(m[k])).tolist()
+        if "axis" in m:
+            m["b1"], m["b2"] = 0.5 * m["b1"], 0.5 * m["b2"]
         spec["base_motion"] = m
+    if kind == "chain" and not conservative:
+        revs = [i for i, j in enumerate(joints) if j["type"] == "Revolute"]
+        if revs and draw(st.integers(0, 2)) == 0:
+            # a drive on a revolute joint: actuator (W_tau la_tau) or a Maxwell element (internal coordinate without
+            # velocity partner, like the PID controller's error integral)
+            spec["drive"] = {"joint": draw(st.sampled_from(revs)), "type": draw(st.sampled_from(["Motor", "PD", "PID", "Maxwell"])),
+                             "amp": [draw(gen.f(-3, 3)), draw(gen.f(-1, 1))], "w": draw(gen.f(0.5, 4.0)),
+                             "kp": draw(gen.f(1, 20)), "ki": draw(gen.f(0.5, 5)), "kd": draw(gen.f(0.1, 2)),
+                             "k": draw(gen.f(2, 30)), "d": draw(gen.f(0.5, 5))}
     if draw(st.booleans()):
         spec["spring"] = {"k": draw(gen.f(5, 60)), "l_ref": draw(gen.f(0.5, 2.0)), "B2": draw(gen.vec3(-2, -0.7)),
                           "d": 0.0 if conservative else draw(st.sampled_from([0.0, 0.0, 0.5]))}
@@ -144,8 +156,13 @@ def build_mechanism(spec, t0=0.0, state=None, consistent=True, opts=None):
         if "base_motion" in spec:
             f = build.motion_functions(spec["base_motion"])
             shift = f["r"](t0) - f["r"](0.0)
+            # the whole mechanism moves with the frame: v += r_t + omega x (r - r_frame), omega += omega_frame
+            A0, A0_t = f["A"](t0), f["A_t"](t0)
+            S = A0_t @ A0.T
+            om = np.array([S[2, 1], S[0, 2], S[1, 0]])
             for b in bs:
-                b["v"] = (np.array(b["v"]) + f["r_t"](t0)).tolist()
+                b["v"] = (np.array(b["v"]) + f["r_t"](t0) + np.cross(om, np.array(b["r"], dtype=float) - f["r"](t0))).tolist()
+                b["omega"] = (np.array(b["omega"]) + gen.quat_to_R(np.array(b["P"], dtype=float)).T @ om).tolist()
             prev = build.make_frame(spec["base_motion"], name="base")
             system.add(prev)
         bodies = [build.make_body(b, name=f"body{i}") for i, b in enumerate(bs)]
@@ -170,6 +187,15 @@ def build_mechanism(spec, t0=0.0, state=None, consistent=True, opts=None):
             es = {"type": "KelvinVoigt" if sp["d"] > 0 else "Spring", "k": sp["k"], "d": sp["d"], "l_ref": sp["l_ref"],
                   "compliance": False}
             system.add(sysbuild.make_force_law(es, tpi))
+        if "drive" in spec:
+            dr = spec["drive"]
+            jn = objs["joints"][dr["joint"]]
+            if dr["type"] == "Maxwell":
+                drive = sysbuild.make_force_law({"type": "Maxwell", "k": dr["k"], "d": dr["d"], "l_ref": None}, jn)
+            else:
+                drive = sysbuild.make_actuator(dr, jn)
+            system.add(drive)
+            objs["drive"] = drive
         objs["bodies"] = bodies
     with quiet():
         if consistent:
